@@ -18,11 +18,11 @@ VARIABLE l
 Flag(prop, clause, bad) == IF bad THEN {<<prop, clause>>} ELSE {}
 
 Viol(pre, ln) ==
-    LET a == ln.a  post == ln.st  E == Step(pre, a) IN
+    LET a == ln.a  post == ln.st  TD == ln.td  P == ln.p  E == Step(TD, P, pre, a) IN
        Flag("X", "time-or-height-of-the-block", post.t # pre.t + a.dt \/ post.h # pre.h + 1)
   \cup Flag("X", "unexpected-result-class", ln.res \notin {"ok", "err"})
-  \cup Flag("C19", "accepted-only-after-both-delays", a.a = "Recv" /\ ln.res = "ok" /\ ~Passed(post.t, post.h))
-  \cup Flag("C19", "delay-boundaries-are-inclusive", a.a = "Recv" /\ Passed(post.t, post.h) /\ ln.res # "ok")
+  \cup Flag("C19", "accepted-only-after-both-delays", a.a = "Recv" /\ ln.res = "ok" /\ ~Passed(TD, P, post.t, post.h))
+  \cup Flag("C19", "delay-boundaries-are-inclusive", a.a = "Recv" /\ Passed(TD, P, post.t, post.h) /\ ln.res # "ok")
   \cup Flag("C19", "received-only-by-an-accepted-receive",
             post.n # pre.n + (IF a.a = "Recv" /\ ln.res = "ok" THEN 1 ELSE 0))
   \cup Flag("CONF", a.a \o ":" \o E.res \o "/" \o ln.res, ~(E.res = ln.res /\ E.S = post))
@@ -33,8 +33,8 @@ TraceInit == l = 0
 TraceNext == /\ l < Len(Trace)
              /\ LET ln == Trace[l + 1] IN
                 IF ln.a.a = "Init"
-                THEN Report(ln, Flag("X", "initial-state", ln.st # InitState) \cup Flag("X", "constants", ln.td # TD \/ ln.p # P))
-                ELSE Report(ln, Viol(Trace[l].st, ln) \cup Flag("X", "trace-order", Trace[l].tr # ln.tr))
+                THEN Report(ln, Flag("X", "initial-state", ln.st # InitState))
+                ELSE Report(ln, Viol(Trace[l].st, ln) \cup Flag("X", "trace-order", Trace[l].tr # ln.tr \/ Trace[l].td # ln.td \/ Trace[l].p # ln.p))
              /\ l' = l + 1
              /\ (l + 1 = Len(Trace) => PrintT(<<"CONSUMED", l + 1>>))
 TraceSpec == TraceInit /\ [][TraceNext]_l
